@@ -79,6 +79,7 @@ func child(args []string) {
 		}
 	}
 	c := mon.NewCtx(*id, *tier, *seed, *shard, *nshards, *only, *out, cfg)
+	checks.SetCtx(c)
 	ck.Run(c)
 	if err := c.Finish(); err != nil {
 		fmt.Fprintln(os.Stderr, "cannot write result:", err)
